@@ -197,6 +197,23 @@ def mk_observation_threading(fname):
     return h
 
 
+def h_reward_termination_no_rng(sx):
+    """reward and termination components are deterministic: they use neither the generator they are handed nor a global one"""
+    from .c01 import LOCAL_REWARDS, LOCAL_TERMS
+    comps = dict(LOCAL_REWARDS)
+    comps.update({'T:' + k: v for k, v in LOCAL_TERMS.items()})
+    name = sx.choice('component', sorted(comps))
+    sigma = [e for e in SIGMA_2C if e[0] in ('Floor', 'Wall', 'Exit(NONE)', 'Key(YELLOW)', 'MovingObstacle', 'Door(LOCKED,YELLOW)', 'Telepod(YELLOW)', 'Beacon(YELLOW)')]
+    state, world = lazy_state(sx, 2, 2, sigma, held_sigma=[e for e in sigma if e[0].startswith('Key')])
+    a = sx.choice('a', ACTIONS)
+    nxt = T.transition_with_copy(partial(T.chain, transition_functions=[T.move_agent, T.turn_agent, T.actuate_door, T.pickndrop]), state, a)
+    with guard_globals(sx):
+        r1 = comps[name](state, a, nxt, rng=ForbiddenRng())
+        r2 = comps[name](state, a, nxt)
+    sx.cover('component-without-rng')
+    sx.check(r1 == r2, 'same-value-with-and-without-a-generator')
+
+
 def h_gridworld_threading(sx):
     """GridWorld passes its own generator (the one made by set_seed) to reset, transition and observation"""
     reset_gv_debug(False)
@@ -389,6 +406,7 @@ def obligations(tier):
     for fname in ('fully_transparent', 'partially_occluded', 'raytracing', 'stochastic_raytracing'):
         obs.append(Obligation(f'observation-threading-{fname}', mk_observation_threading(fname), dict(function=fname)))
     obs.append(Obligation('gridworld-threading', h_gridworld_threading))
+    obs.append(Obligation('reward-termination-use-no-generator', h_reward_termination_no_rng))
     for n in ([2, 3] if q else [2, 3, 4]):
         obs.append(Obligation(f'order-independence-memory-5x5-{n}colours', mk_order('memory', 5, 5, n), dict(function='memory', colours=n)))
         obs.append(Obligation(f'order-independence-memory_rooms-4x4-{n}colours', mk_order('memory_rooms', 4, 4, n), dict(function='memory_rooms', colours=n)))
